@@ -189,6 +189,25 @@ class Session(object):
         self.kc_log = []                 # ("add", reg, sec, scr) / ("get", h160), in order
         self.kc_content = (frozenset(), frozenset(), False)
         self.same_as_fresh = True
+        self.raised = None               # create_signed_tx: did it raise SecretExponentMissing
+
+    def create_signed(self, p):
+        """tx_utils.create_signed_tx from the spendables / payables of the unsigned transaction"""
+        from pycoin.coins.tx_utils import SecretExponentMissing
+        N = self.net
+        Tx = N.tx
+        tx0 = self.tx
+        spendables = [Tx.Spendable(u.coin_value, u.script, t.previous_hash, t.previous_index)
+                      for t, u in zip(tx0.txs_in, tx0.unspents)]
+        payables = [(self.ring.key(20 + j).address(), 1000 + 7 * j) for j in range(len(tx0.txs_out))]
+        wifs = [self.ring.wif(k, "c" if k % 2 else "u") for k in sorted(p["K"])]
+        p2sh = N.tx.solve.build_p2sh_lookup(self._scripts()) if p["scr"] else None
+        try:
+            tx = N.tx_utils.create_signed_tx(spendables, payables, wifs=wifs, fee=0, hash_type=p["ht"], p2sh_lookup=p2sh)
+            self.raised = False
+            self.tx = tx
+        except SecretExponentMissing:
+            self.raised = True
 
     def clone(self):
         s = copy.copy(self)
@@ -253,7 +272,11 @@ class Session(object):
         if p["mech"] == "kc_add":
             self.kc_add(p["reg"], p["sec"], p["scr"])
             return
-        idx = _index_collection(p["ic"], sorted(i - 1 for i in p["I"]))
+        if p["mech"] == "create_signed":
+            self.create_signed(p)
+            return
+        ic = p.get("ic", "none" if len(p["I"]) == len(self.tx.txs_in) else "list")
+        idx = _index_collection(ic, sorted(i - 1 for i in p["I"]))
         ht = p["ht"]
         mech = p["mech"]
         p2sh = N.tx.solve.build_p2sh_lookup(self._scripts()) if p["scr"] else None
@@ -275,7 +298,7 @@ class Session(object):
                 self.tx.Solver(self.tx).sign(kc, tx_in_idx_set=idx, hash_type=ht, p2sh_lookup=kc)
             finally:
                 self._flush_gets()
-            twin.Solver(twin).sign(fresh_kc, tx_in_idx_set=_index_collection(p["ic"], sorted(i - 1 for i in p["I"])),
+            twin.Solver(twin).sign(fresh_kc, tx_in_idx_set=_index_collection(ic, sorted(i - 1 for i in p["I"])),
                                    hash_type=ht, p2sh_lookup=fresh_kc)
             self.same_as_fresh = all(unlocking_of(self.tx, i) == unlocking_of(twin, i) for i in range(len(twin.txs_in)))
         else:
@@ -665,6 +688,8 @@ class Recorder(object):
         e["canonical"] = not any(p["enc"] for p in pr)
         e["changed"] = [i + 1 for i in range(len(pr)) if unlocking_of(tx, i) != tok["unl"][i]]
         e["frame"] = self._frame_digest(tx)
+        e["bad"] = tx.bad_solution_count()
+        e["raised"] = False
         s["ev"].append(e)
         if self.keep_signed and all(e["valid"]):
             s["final"] = copy.deepcopy(tx)        # (tests go on to modify their transactions)
@@ -780,6 +805,15 @@ def desc_for(kind, k):
     return {"kind": kind, "m": m, "keys": keys, "form": form}
 
 
+class NotInjective(Exception):
+    """the concrete transaction cannot carry the token model of TxValidate.tla faithfully (two tokens
+    the specification treats as different would denote the same bytes): such a transaction is not
+    used - a mutation must never be a silent no-op"""
+
+
+ZERO32 = b"\0" * 32
+
+
 class TxUnderTest(object):
     """a signed transaction (inputs signed one by one with their own hash types through Tx.sign)
     plus, per input record, the as-signed values needed to apply / undo abstract mutations"""
@@ -792,7 +826,7 @@ class TxUnderTest(object):
             ses = Session(coin, shape, n_out=nout)
             for k, ht in enumerate(hts):
                 ses.sign({"mech": "lookup", "K": shape[k]["keys"], "I": [k + 1], "ht": ht, "scr": True,
-                          "reg": [], "sec": [], "fresh": True})
+                          "reg": [], "sec": [], "fresh": True, "ic": "list"})
             tx = ses.tx
         else:
             # a transaction signed elsewhere (the repository's tests): plain lists of plain TxOut records
@@ -805,9 +839,22 @@ class TxUnderTest(object):
                      for k, t in enumerate(tx.txs_in)]
         self.out_amt = {j + 1: o.coin_value for j, o in enumerate(tx.txs_out)}
         self.out_spk = {j + 1: bytes(o.script) for j, o in enumerate(tx.txs_out)}
+        fresh_amt = 4242
         for v in (1, 2, 3):
-            self.out_amt.setdefault(v, 4242 + v)
-            self.out_spk.setdefault(v, bytes([0x51 + 7 + v, 0x51 + v]))
+            while v not in self.out_amt:
+                fresh_amt += 1
+                if fresh_amt not in self.out_amt.values():
+                    self.out_amt[v] = fresh_amt
+            if v not in self.out_spk:
+                self.out_spk[v] = bytes([0x51 + 7 + v, 0x51 + v])
+        # token -> bytes must be injective, separately for amounts and for scripts; inputs must spend
+        # distinct outpoints and distinct puzzles and carry distinct unlocking data
+        if (len(set(self.out_amt.values())) != 3 or len(set(self.out_spk.values())) != 3
+                or len(set((m["oph"], m["opi"]) for m in self.meta)) != len(self.meta)
+                or len(set(m["spk"] for m in self.meta)) != len(self.meta)
+                or len(set(unlocking_of(tx, i) for i in range(len(self.meta)))) != len(self.meta)
+                or any(m["oph"] == ZERO32 or m["opi"] >= 0xFFFFFFFE for m in self.meta)):
+            raise NotInjective("outputs / inputs of the signed transaction are not pairwise distinct")
         self.orig = copy.deepcopy((tx.version, tx.lock_time, tx.txs_in, tx.txs_out, tx.unspents, self.meta))
         self.n_inserted = 0
 
@@ -832,17 +879,41 @@ class TxUnderTest(object):
         Tx = self.N.tx
         m, a, b = x["m"], x["a"], x["b"]
         p = a - 1
+        before = self._field(m, p)
+        self._apply(x)
+        if m in self.FIELD_MUTS and self._field(m, p) == before:
+            raise NotInjective("mutation %s/%s/%s did not change the field" % (m, a, b))
+
+    FIELD_MUTS = ("ver", "lock", "oph", "opi", "seq", "spent_amt", "spent_spk", "out_amt", "out_spk")
+
+    def _field(self, m, p):
+        tx = self.tx
+        try:
+            return {"ver": lambda: tx.version, "lock": lambda: tx.lock_time,
+                    "oph": lambda: tx.txs_in[p].previous_hash, "opi": lambda: tx.txs_in[p].previous_index,
+                    "seq": lambda: tx.txs_in[p].sequence, "spent_amt": lambda: tx.unspents[p].coin_value,
+                    "spent_spk": lambda: bytes(tx.unspents[p].script), "out_amt": lambda: tx.txs_out[p].coin_value,
+                    "out_spk": lambda: bytes(tx.txs_out[p].script)}.get(m, lambda: None)()
+        except (IndexError, AttributeError):
+            return None
+
+    def _apply(self, x):
+        tx = self.tx
+        Tx = self.N.tx
+        m, a, b = x["m"], x["a"], x["b"]
+        p = a - 1
         if m == "ver":
             tx.version = self.orig[0] if b == 0 else self.orig[0] + 1
         elif m == "lock":
             tx.lock_time = self.orig[1] if b == 0 else self.orig[1] + 17
         elif m == "oph":
             o = self.meta[p]["oph"]
-            tx.txs_in[p].previous_hash = o if b == 0 else hashlib.sha256(o).digest()
+            # 1: another transaction id; 2: the null id (what a coinbase input refers to)
+            tx.txs_in[p].previous_hash = o if b == 0 else hashlib.sha256(o).digest() if b == 1 else ZERO32
         elif m == "opi":
-            tx.txs_in[p].previous_index = self.meta[p]["opi"] + b
+            tx.txs_in[p].previous_index = (self.meta[p]["opi"] ^ b) if b < 2 else 0xFFFFFFFF
         elif m == "seq":
-            tx.txs_in[p].sequence = self.meta[p]["seq"] - 5 * b
+            tx.txs_in[p].sequence = self.meta[p]["seq"] ^ (0x10 * b)
         elif m == "spent_amt":
             tx.unspents[p].coin_value = self.meta[p]["amt"] + b
         elif m == "spent_spk":
